@@ -62,5 +62,6 @@ TwoCrashes == {{k, k + d} : k \in 2..60, d \in {1, 2, 5, 11, 23}} \cup OneCrash 
 EmitCrashConfigs == Plain(2, {1, 2}, {Unl}) \cup {Cfg(Fresh(3), 1, Unl, {}, {}, {}), Cfg(Old3, 1, Unl, {"FAILED"}, {}, {})} \cup FinishedSmall \cup {LiveA1, LiveB1}
 \* one process, two worker threads: a worker still runs the last job of a full chunk when the other one syncs
 P1T2Configs == Live \cup {LiveA0, LiveB0} \cup Plain(3, {1, 2}, {Unl})
+EmitP1T2Configs == {LiveB0, LiveB1, LiveA1, Cfg(Fresh(3), 2, Unl, {}, {}, {})}
 SimT2Configs == T2Configs \cup {LiveB1}
 ====
